@@ -607,6 +607,20 @@ func (c *Client) monitor(ctx context.Context) {
 				<-c.sechanErr
 			}
 
+			// the error of a new secure channel which has been lost
+			// while the session and the subscriptions were restored has
+			// been cleared as well. Do not miss that.
+			if sc := c.SecureChannel(); sc != nil {
+				select {
+				case <-sc.Disconnected():
+					select {
+					case c.sechanErr <- io.EOF:
+					default:
+					}
+				default:
+				}
+			}
+
 			switch {
 			case activeSubs > 0:
 				dlog.Printf("resuming %d subscriptions", activeSubs)
